@@ -44,10 +44,18 @@ structure Flags where
   windFailureRestores : Bool := false
   /-- mempool.rs:202 `bundle_block` declines when the clock is not past the tip instead of asserting -/
   bundleClockChecked : Bool := false
+  /-- MEASURED outcome class (not a panic site): a fetched block that spends a non-existent output is REJECTED by a full
+      node (true once block.rs:3194-3217 returns the per-transaction verdict; `txVerdict` alone only says "no panic") -/
+  spendMissingRejected : Bool := false
+  /-- the same block is rejected by a node in browser mode (pinned: accepted, the supply check is skipped) -/
+  spendMissingRejectedBrowser : Bool := false
+  /-- the same block is rejected by a node in lite (spv) mode (pinned and with the verdict honoured: accepted, because
+      `Block::validate` returns true at once in spv mode, block.rs:2640) -/
+  spendMissingRejectedSpv : Bool := false
   deriving Repr, DecidableEq
 
 def Flags.pinned : Flags := {}
-def Flags.fixed : Flags := ⟨true, true, true, true, true, true, true, true, true, true, true, true⟩
+def Flags.fixed : Flags := ⟨true, true, true, true, true, true, true, true, true, true, true, true, true, true, false⟩
 
 inductive Site where
   | msgBlock | ghostReqNoKey | keyListLimit | hsKeyMismatch | gtPayloadPool | gtPayloadBlock | verifyGenerate
@@ -350,9 +358,19 @@ def runC (fl : Flags) (n : Node) : Res :=
     | .gtshort =>
       if fl.gtPayloadChecked then ⟨bumpInvalid n i, .rejected, false⟩ else ⟨n, .panic .gtPayloadBlock, false⟩
     | .spendmissing =>
-      -- the supply check is skipped in spv / browser mode (blockchain.rs:2229)
-      if n.mode != .full then ⟨{ n with chainEmpty := false }, .handled, false⟩
-      else if fl.txVerdict then ⟨bumpInvalid n i, .rejected, false⟩ else ⟨n, .panic .totalSupply, false⟩
+      -- pinned: the block is ACCEPTED in every mode (verdict discarded); a full node then panics in the supply check,
+      -- which is skipped in spv / browser mode (blockchain.rs:2229). Whether a tree rejects the block is measured per mode.
+      match n.mode with
+      | .full =>
+        if !fl.txVerdict then ⟨n, .panic .totalSupply, false⟩
+        else if fl.spendMissingRejected then ⟨bumpInvalid n i, .rejected, false⟩
+        else ⟨{ n with chainEmpty := false }, .handled, false⟩
+      | .browser =>
+        if fl.spendMissingRejectedBrowser then ⟨bumpInvalid n i, .rejected, false⟩
+        else ⟨{ n with chainEmpty := false }, .handled, false⟩
+      | .spv =>
+        if fl.spendMissingRejectedSpv then ⟨bumpInvalid n i, .rejected, false⟩
+        else ⟨{ n with chainEmpty := false }, .handled, false⟩
     | .reorginvalid =>
       if n.mode == .spv then ⟨{ n with chainEmpty := false }, .handled, false⟩   -- nothing is validated: the branch is adopted
       else if fl.windFailureRestores then ⟨bumpInvalid n i, .rejected, false⟩ else ⟨n, .stall, false⟩
